@@ -32,6 +32,16 @@ import (
 
 func TestMain(m *testing.M) { vstat.Main(m, "C13") }
 
+// checks sets the number of generated cases for the tier — except in a process the driver started to replay a
+// committed fail file (VERIF_REPLAYING): rapid goes on with generated cases after the file, and under the
+// driver's 5-minute limit for such a process a whole thorough budget does not fit (a timeout is not a verdict).
+func checks(q, th int) {
+	if os.Getenv("VERIF_REPLAYING") != "" {
+		q, th = 50, 50
+	}
+	vstat.Checks(q, th)
+}
+
 type fataler = vstat.Fataler
 
 // session-id alphabet of the property (<= 4 ids); the sentinel id is used only by the end-to-end layers.
